@@ -120,7 +120,14 @@ class Gen:
             return Node(k, V, [sub(V)])
         if k == "K_E2V": return Node(k, V, [sub(E)])
         if k == "K_V2E": return Node(k, E, [sub(V)])
-        if k in ("K_UNSTOPPABLE", "K_MATDEMAT", "K_ANY", "K_ALLOCATE", "K_WITH_QUERY", "K_LVWST"):
+        if k == "K_ANY":
+            # KNOWN FINDING sender_for_hijacks_type_erasure_builtins: any_sender_of holding schedule(s) directly (the witness is the
+            # pinned shape 9009) -- excluded by construction
+            ch = sub(vt)
+            if ch.kind == "K_SCHEDULE":
+                ch = Node("K_LEAFV", E, a=self.leaves); self.leaves += 1
+            return Node(k, vt, [ch])
+        if k in ("K_UNSTOPPABLE", "K_MATDEMAT", "K_ALLOCATE", "K_WITH_QUERY", "K_LVWST"):
             return Node(k, vt, [sub(vt)])
         if k in ("K_NEST", "K_NEST_CLOSED"):
             # nest_sender's const& connect overload is probed during overload resolution and instantiates the child's
